@@ -960,7 +960,7 @@ func (fr *Frame) execTypeAssert(ins *ssa.TypeAssert, st *State) {
 		// interface-to-interface assertion: succeeds iff the dynamic type implements it
 		okc := fmt.Sprintf("(implements_%s (dyntype %s))", typeKey(at), x.S)
 		name := "implements_" + typeKey(at)
-		if !vc.declared[name] {
+		if _, inSpec := vc.db.Sigs[name]; !vc.declared[name] && !inSpec {
 			vc.declared[name] = true
 			vc.decls = append(vc.decls, fmt.Sprintf("(declare-fun %s (Int) Bool)", name))
 		}
